@@ -104,10 +104,26 @@ def dictErase (k : Bytes) : List (Bytes × Obj) → List (Bytes × Obj)
     calls and at least one byte -/
 def objFuel (inp : Bytes) : Nat := 3 * inp.length + 8
 
+/-- the value of `/Length` as `ReadStreamData` sees it (library HEAD a2d2dfe): `.ok none` = unknown
+    (no entry, a negative value, or `getInt` failed with a malformed-file error: the extent is
+    recovered by searching), `.ok (some n)`, or — when `getInt` fails with a read error
+    (`IsReadError`: anything that is not a `MalformedFileError`, the bare `io.EOF` included) —
+    that error as it leaves `ReadStreamData` through its deferred handler (`io.EOF` becomes
+    "unexpected EOF while reading Stream", every other error is wrapped and stays what it is). -/
+def declaredOf (getInt : Obj → Except Err Int) (d : List (Bytes × Obj)) : Except Err (Option Nat) :=
+  match dictLookup kwLength d with
+  | none => .ok none
+  | some o =>
+    match getInt o with
+    | .ok n => .ok (if n ≥ 0 then some n.toNat else none)
+    | .error .malformed => .ok none
+    | .error .eof => .error .malformed
+    | .error _ => .error .other
+
 /-- `ReadObject` on a scanner with a `fileReader`, at absolute position `pos`.  `getInt` is the
-    scanner's `getInt` (`none` = it returned an error); `scalarOnly` refuses composites.
+    scanner's `getInt`; `scalarOnly` refuses composites.
     Returns the value and the absolute position after it. -/
-def readObjectTop (file : Bytes) (pos : Nat) (getInt : Obj → Option Int) (scalarOnly : Bool) :
+def readObjectTop (file : Bytes) (pos : Nat) (getInt : Obj → Except Err Int) (scalarOnly : Bool) :
     Except Err (Val × Nat) :=
   let inp := file.drop pos
   match inp with
@@ -119,18 +135,12 @@ def readObjectTop (file : Bytes) (pos : Nat) (getInt : Obj → Option Int) (scal
       let (r', _) := skipWS r
       let p := file.length - r'.length
       if startsWith r' kw_stream then
-        let declared : Option Nat :=
-          match dictLookup kwLength d with
-          | none => none
-          | some .null => match getInt .null with   -- `dict["Length"]` present with a nil value
-            | some n => if n ≥ 0 then some n.toNat else none
-            | none => none
-          | some o => match getInt o with
-            | some n => if n ≥ 0 then some n.toNat else none
-            | none => none
-        match readStreamData file p declared with
+        match declaredOf getInt d with
         | .error e => .error e
-        | .ok ext => .ok (.stream (dictErase kwLength d) ext.start ext.len, ext.after)
+        | .ok declared =>
+          match readStreamData file p declared with
+          | .error e => .error e
+          | .ok ext => .ok (.stream (dictErase kwLength d) ext.start ext.len, ext.after)
       else .ok (.obj (.dict d), p)
   | 91 :: _ =>
     if scalarOnly then .error .malformed else
@@ -163,7 +173,7 @@ structure Indirect where
   deriving Repr, Inhabited
 
 /-- `ReadIndirectObject` on a scanner positioned at absolute `pos` -/
-def readIndirect (file : Bytes) (pos : Nat) (getInt : Obj → Option Int) (scalarOnly : Bool) :
+def readIndirect (file : Bytes) (pos : Nat) (getInt : Obj → Except Err Int) (scalarOnly : Bool) :
     Except Err Indirect :=
   match readInt (file.drop pos) with
   | .error e => .error e
